@@ -25,6 +25,7 @@ func init() {
 	sweeps = append(sweeps, &SweepDef{Rule: "L1", Gen: sweepL1})
 	sweeps = append(sweeps, &SweepDef{Rule: "E6", Gen: sweepE6})
 	sweeps = append(sweeps, &SweepDef{Rule: "ERR-USE", Gen: sweepERRUSE})
+	sweeps = append(sweeps, &SweepDef{Rule: "ERR-USE-CODEC", Gen: sweepERRUSECODEC})
 }
 
 // sweepL1: delete each statement that releases a mutex field (x.Unlock(), defer x.RUnlock(), ...).
@@ -203,9 +204,17 @@ func sweepE6(p *Program) []*ControlDef {
 // sweepERRUSE: empty the body of each `if err != nil { ...; return ... }` whose error
 // comes from a call, in the packages ERR-USE covers: the failure is then dropped.
 func sweepERRUSE(p *Program) []*ControlDef {
+	return sweepErrUseIn(p, "ERR-USE", "database/transaction", "database/inmemory", "database", "server", "updates")
+}
+
+func sweepERRUSECODEC(p *Program) []*ControlDef {
+	return sweepErrUseIn(p, "ERR-USE-CODEC", "ovsdb", "mapper")
+}
+
+func sweepErrUseIn(p *Program, rule string, rels ...string) []*ControlDef {
 	var out []*ControlDef
 	errT := types.Universe.Lookup("error").Type()
-	for _, rel := range []string{"database/transaction", "database/inmemory", "database", "server", "updates"} {
+	for _, rel := range rels {
 		pk := p.Pkgs[rel]
 		if pk == nil {
 			continue
@@ -255,7 +264,7 @@ func sweepERRUSE(p *Program) []*ControlDef {
 					key := fmt.Sprintf("%s#%d", fname, n)
 					out = append(out, &ControlDef{
 						Name:   "sweep: empty the error branch at " + p.Pos(is.Pos()) + " in " + key,
-						Rule:   "ERR-USE",
+						Rule:   rule,
 						Expect: fname + "|error of",
 						Edit: func(p2 *Program) ([]TextEdit, error) {
 							return []TextEdit{p2.editReplace(body, "{ println() }")}, nil
